@@ -1,16 +1,17 @@
 (* ApiIo.v — correspondence entry points for C17.  Definitions only. *)
 From Coq Require Import ZArith List Bool.
-From Mpir Require Import Word DivDefs RadixDefs IoDefs ApiBasic ApiRadix.
+From Mpir Require Import Word DivDefs MpzDefs RadixDefs IoDefs IoLoopDefs ApiBasic ApiRadix.
 From MpirGen Require Import Gen_Consts.
 Import ListNotations.
 Local Open Scope Z_scope.
 
 (* mpz_export X size order endian nails align stale nullrop *)
+(* the loop-level model of the general path of mpz/export.c on a buffer of junk (proved equal to the specification: C17_export_loop_is_spec) *)
 Definition api_mpz_export : api := fun a =>
-  let '(bs, c) := mpz_export (argz a 0) (argz a 1) (argz a 2) (argz a 3) (argz a 4) in [TB bs; TZ c].
+  let '(bs, c) := export_loop (fun _ => 201) (limbs_of_Z (argz a 0)) (argz a 1) (argz a 2) (argz a 3) (argz a 4) in [TB bs; TZ c].
 (* mpz_import bytes count size order endian nails align *)
 Definition api_mpz_import : api := fun a =>
-  [TZ (mpz_import (argb a 0) (argz a 1) (argz a 2) (argz a 3) (argz a 4) (argz a 5))].
+  [TZ (import_loop (firstn (Z.to_nat (argz a 1 * argz a 2)) (argb a 0)) (argz a 1) (argz a 2) (argz a 3) (argz a 4) (argz a 5))].
 Definition api_mpz_out_raw : api := fun a => let s := out_raw (argz a 0) in [TB s; TZ (Z.of_nat (length s))].
 Definition raw_toks (r : Z * Z) : list tok := if fst r =? 0 then [TZ 0] else [TZ (fst r); TZ (snd r)].
 Definition api_mpz_inp_raw : api := fun a => raw_toks (inp_raw (argb a 0)).
